@@ -2,10 +2,10 @@ SPECIFICATION Spec
 CONSTANTS
   MaxNodes = 6
   Keys = {1, 2}
-  Leafs = {101, 102}
+  Leafs = {101, 160}
   Shapes = {200, 201, 210, 211, 220}
   MaxLen = 3
-  Acts = {"dict", "list", "perm", "clone", "forget", "slice", "rebind", "inplace", "flags", "json"}
+  Acts = {"dict", "list", "perm", "clone", "forget", "slice", "rebind", "inplace", "flags", "scope"}
   Mirror = FALSE
   MaxLevel = 40
   InitKinds <- IK_ObjList
